@@ -75,6 +75,7 @@ pub fn cases(tier: &str, seed: u64) -> Vec<Case> {
     let mut v = vec![];
     // split / join
     let mut lens: Vec<usize> = (0..=12).collect();
+    for l in [13usize, 40, 100, 127, 128, 200, 250, 1500, 2047, 2048, 5000, 65000] { lens.push(l); } // (a text beyond ~65 270 bytes makes a TXT whose RDATA no RDLENGTH can describe: outside every DNS size limit, and not this property's subject)
     for base in [254usize, 255, 508, 510, 762, 765, 1016, 1020] { for d in 0..7 { lens.push(base + d - 3); } }
     let reps = if thorough { 40 } else { 4 };
     for _ in 0..reps {
